@@ -643,6 +643,27 @@ def _interp_stmt(repo, cls, fn, st, ctx, res, gens):
         return
     if isinstance(st, ast.For):
         it0 = asub(st.iter, ctx)
+        if isinstance(it0, ast.Name):
+            # a local bound once to a literal tuple / list (a table of (name, callback) pairs): loop over the literal
+            from . import flow as _flow
+            d0 = _flow._single_def(fn, it0.id)
+            if isinstance(d0, (ast.Tuple, ast.List)):
+                it0 = asub(d0, ctx)
+        if isinstance(it0, ast.Call) and call_name(it0) == "product" and isinstance(st.target, ast.Tuple):
+            # for a, b in product(X, Y) / product(X, repeat=2): the nested loops it abbreviates
+            rep = [k for k in it0.keywords if k.arg == "repeat"]
+            comps = list(it0.args)
+            if rep and isinstance(rep[0].value, ast.Constant) and isinstance(rep[0].value.value, int):
+                comps = comps * rep[0].value.value
+            if len(comps) == len(st.target.elts) and len(comps) >= 2:
+                inner = st.body
+                for tg0, c0 in reversed(list(zip(st.target.elts, comps))):
+                    node = ast.For(target=tg0, iter=c0, body=inner, orelse=[])
+                    ast.copy_location(node, st)
+                    node._parent = getattr(st, "_parent", None)
+                    inner = [node]
+                _interp_stmt(repo, cls, fn, inner[0], ctx, res, gens)
+                return
         if isinstance(it0, (ast.Tuple, ast.List)) and it0.elts and not any(isinstance(e, ast.Starred) for e in it0.elts):
             # loop over a literal tuple (e.g. of (condition name, callback) pairs): unrolled
             for e in it0.elts:
@@ -708,6 +729,16 @@ def _interp_stmt(repo, cls, fn, st, ctx, res, gens):
             raise AnalysisError("%s: loop `%s` feeds a constraint sink but is outside the analysed fragment (%s)"
                                 % (cls.name, norm_stmt(st)[:80], where))
         res.skipped.append(norm_stmt(st)[:100])
+        return
+    if isinstance(st, ast.Assign) and len(st.targets) == 1 and isinstance(st.targets[0], ast.Tuple) and isinstance(st.value, ast.Tuple) \
+            and len(st.targets[0].elts) == len(st.value.elts) and all(isinstance(t0, ast.Name) for t0 in st.targets[0].elts) \
+            and not ({t0.id for t0 in st.targets[0].elts} & {n0.id for n0 in ast.walk(st.value) if isinstance(n0, ast.Name)}):
+        # a, b = x, y  with independent sides: two assignments
+        for t0, v0 in zip(st.targets[0].elts, st.value.elts):
+            one = ast.Assign(targets=[t0], value=v0)
+            ast.copy_location(one, st)
+            one._parent = getattr(st, "_parent", None)
+            _interp_stmt(repo, cls, fn, one, ctx, res, gens)
         return
     if isinstance(st, ast.Assign) and len(st.targets) == 1:
         tgt = st.targets[0]
